@@ -42,6 +42,16 @@ pub fn def() -> PropDef {
                 check: ser_misc::cpc_roundtrip,
             }),
             Box::new(PropSub {
+                name: "cpc_every_coupon_count",
+                rule: "the image after EVERY coupon count: exact arrival-time streams at lg_k 4..=12 fed one coupon at a time up to C = 3.75 k .. 31 k (every flavor threshold, the first window moves, every pseudo-phase boundary), directly or through a union; read back by the crate: matrix, state, estimate, CpcWrapper. non-trivial = reached the Pinned flavor",
+                cases_quick: 48,
+                cases_thorough: 1_000,
+                max_shrink_iters: 30,
+                limit_factor: 3,
+                strategy: ser_misc::cpc_sweep_case,
+                check: ser_misc::cpc_sweep_roundtrip,
+            }),
+            Box::new(PropSub {
                 name: "frequent_items",
                 rule: "i64 / u64 / String sketches of map size 8..=512 after shaped weighted runs (incl. purges that empty the sketch); deserialized copy answers lb / estimate / ub for every item of the domain, total_weight, maximum_error, frequent_items rows identically; re-serialized image encodes the same state; both continue with updates and are merged into fresh sketches. non-trivial = purged",
                 cases_quick: 60_000,
